@@ -67,22 +67,25 @@ fn c09_configs(tier: Tier) -> Vec<c09::C09> {
         for permitted in [1usize, 2] {
             let mut cfg = base_cfg(time_based);
             cfg.permitted = permitted;
-            v.push(c09::C09 { cfg: cfg.clone(), callers: tier.pick(3, 4).max(permitted + 2), max_ticks: 2, max_drops: 1, prepared: true, straggler: false });
+            v.push(c09::C09 { cfg: cfg.clone(), callers: tier.pick(3, 4).max(permitted + 2), max_ticks: 2, max_drops: 1, prepared: true, straggler: false, nested: 0 });
             if time_based && permitted == 2 {
                 // a half-open period that lasts longer than the (short) time window
                 let mut short = cfg.clone();
                 short.window_ms = 10;
-                v.push(c09::C09 { cfg: short, callers: 3, max_ticks: 2, max_drops: 0, prepared: true, straggler: false });
+                v.push(c09::C09 { cfg: short, callers: 3, max_ticks: 2, max_drops: 0, prepared: true, straggler: false, nested: 0 });
             }
             if permitted == 2 {
                 // callers 0,1 are used by the prelude; 2,3,4 arrive in the second half-open period
-                v.push(c09::C09 { cfg: cfg.clone(), callers: 5, max_ticks: 0, max_drops: 1, prepared: true, straggler: true });
+                v.push(c09::C09 { cfg: cfg.clone(), callers: 5, max_ticks: 0, max_drops: 1, prepared: true, straggler: true, nested: 0 });
             }
+            // emulated lock contention: a caller is polled from inside another caller's critical
+            // section (admission, outcome recording), as a second thread reaching the lock would be
+            v.push(c09::C09 { cfg: cfg.clone(), callers: permitted + 2, max_ticks: 1, max_drops: 0, prepared: true, straggler: false, nested: tier.pick(1, 2) });
             if tier == Tier::Thorough {
                 let mut cfg2 = cfg.clone();
                 cfg2.window_size = 1;
                 cfg2.min_calls = Some(1);
-                v.push(c09::C09 { cfg: cfg2, callers: permitted + 2, max_ticks: 4, max_drops: 1, prepared: false, straggler: false });
+                v.push(c09::C09 { cfg: cfg2, callers: permitted + 2, max_ticks: 4, max_drops: 1, prepared: false, straggler: false, nested: 0 });
             }
         }
     }
@@ -127,7 +130,7 @@ fn main() {
             let mut rep = Report::new("C09", tier, "model_checking");
             rep.rule = "BFS over action histories {Arrive,Poll,Drop,Complete(ok|err),Tick} of the real CircuitBreaker started half-open-ready (forced open, wait elapsed) or closed; per half-open period (from the transition log) the inner calls started are counted".into();
             rep.assumptions = vec!["prompt executor; interleaving granularity is one Future::poll".into()];
-            for w in ["rejected_beyond_permitted", "trial_call_in_flight", "two_callers_arrive_while_half_open", "closed_after_trials", "reopened_after_failed_trial", "trial_call_cancelled"] {
+            for w in ["rejected_beyond_permitted", "trial_call_in_flight", "two_callers_arrive_while_half_open", "closed_after_trials", "reopened_after_failed_trial", "trial_call_cancelled", "caller_polled_inside_another_callers_critical_section"] {
                 rep.require_witness(w);
             }
             let depth = tier.pick(12, 14);
